@@ -112,8 +112,33 @@ pub fn row_payload<'a>(methods: &'a [ReplyMethodView], row: &ReplyRow) -> &'a Re
 
 pub fn payload_args_strategy(m: &ReplyMethodView) -> BoxedStrategy<Vec<Value>> {
     match &m.spec.payload {
-        Payload::Raw => svmodel::json::value_strategy(&Ty::Binary).prop_map(|v| vec![v]).boxed(),
-        Payload::Typed(_) => args_strategy(&m.payload_conc),
+        // mostly small byte strings; one case in 33 is a large payload around the powers of two
+        // between 64 KiB and 1 MiB (payloads have no documented size limit)
+        Payload::Raw => prop_oneof![
+            32 => svmodel::json::value_strategy(&Ty::Binary).prop_map(|v| vec![v]),
+            1 => (0usize..9, any::<u8>(), any::<u8>()).prop_map(|(k, a, b)| {
+                let n = [65_535usize, 65_536, 131_071, 131_072, 131_073, 200_000, 262_144, 262_145, 1 << 20][k];
+                let bytes: Vec<u8> = (0..n).map(|i| if i % 2 == 0 { a } else { b.wrapping_add(i as u8) }).collect();
+                vec![Value::String(b64(&bytes))]
+            }),
+        ]
+        .boxed(),
+        Payload::Typed(_) => {
+            // a text argument is, one case in 33, long enough to push the encoding past 128 KiB / 256 KiB
+            let texts: Vec<usize> = m.payload_conc.iter().enumerate().filter(|(_, t)| **t == Ty::Str).map(|(i, _)| i).collect();
+            if texts.is_empty() {
+                args_strategy(&m.payload_conc)
+            } else {
+                (args_strategy(&m.payload_conc), 0u32..33, 0usize..4, "[a-z]").prop_map(move |(mut args, big, k, ch)| {
+                    if big == 0 {
+                        let n = [131_072usize, 140_000, 262_144, 300_000][k];
+                        args[texts[k % texts.len()]] = Value::String(ch.repeat(n));
+                    }
+                    args
+                })
+                .boxed()
+            }
+        }
     }
 }
 
@@ -277,6 +302,8 @@ fn decode_ty(ty: &Ty, bytes: &[u8]) -> Option<Value> {
         Ty::Choice => from_json::<crate::types::Choice>(bytes).ok().map(|v| serde_json::to_value(v).unwrap()),
         Ty::U32 => from_json::<u32>(bytes).ok().map(|v| json!(v)),
         Ty::Str => from_json::<String>(bytes).ok().map(|v| json!(v)),
+        Ty::Opt(inner) if **inner == Ty::U32 => from_json::<Option<u32>>(bytes).ok().map(|v| json!(v)),
+        Ty::Opt(inner) if **inner == Ty::Rec => from_json::<Option<crate::types::Rec>>(bytes).ok().map(|v| serde_json::to_value(v).unwrap()),
         other => panic!("decode_ty: unsupported data type {other:?}"),
     }
 }
